@@ -87,4 +87,17 @@ var propMeta = map[string]*PropMeta{
 		Real:  realS, Stub: stubS, Assumptions: commonAssumptions,
 		Probes: []string{"q.error"},
 	},
+	"C07": {
+		Level: "exploration", QuickSecs: 35, ThoroughSecs: 600, Recycle: 300,
+		Rule: "one case = one seeded plan: generated schema (retention 30 s - 2 h) and dataset, clock jumps of {1 resolution, retention/4, /2, 1x} so that part of the data expires, then 2-8 queries with generated (asOf, until) pairs: absolute (RFC3339) or relative to the database clock, aligned / unaligned / 1 ns off the resolution grid, inside / outside / straddling the stored data, reaching back beyond the table's asOf, asOf only, or no range; combined with every kind of grouping and with period multiples; each issued at an instant positioned relative to the period boundary. Oracle: (R) the reported window equals the requested range rounded up to the resolution, and the rows are exactly the reference aggregator's buckets of that window; (M) at native resolution the bounded rows equal the rows of the same query without a range that lie wholly inside the window; an unranged ungrouped dump may not return periods outside the window it reports; a range that starts before the table's asOf must be refused. Non-trivial as for C06.",
+		Real:  realS, Stub: stubS, Assumptions: commonAssumptions,
+		Probes: []string{"q.refused-asof-before-table", "probe.m-nonempty", "fault.clockjump"},
+	},
+	"C08": {
+		Level: "exploration", QuickSecs: 35, ThoroughSecs: 600, Recycle: 200,
+		Rule: "one case = one seeded plan on twin instances: A receives every generated point, B only those whose dimensions satisfy the plan's WHERE predicate (decided by the simulator's own three-valued evaluator); 2-6 generated queries of four kinds: (i) Q WHERE p on A vs Q on B; (ii) Q HAVING f op c vs the rows of Q+ (Q plus f if unselected) that satisfy the predicate on the reported values, helper column absent; (iii) dim IN (SELECT dim ... [WHERE][HAVING]) vs IN over the literal list of distinct values obtained by running the subquery alone; (iv) SELECT f FROM (grouped inner query) GROUP BY coarser dims vs summing f over the materialised inner rows. All queries of one comparison are planned at one simulated instant. Non-trivial = a compared query returned rows.",
+		Real:  realS, Stub: stubS,
+		Assumptions: append([]string{"the simulator contributes storage splits and the common clock; the deciding power is the program generator plus the differential (DESIGN 4/C08)", "predicates only use dimensions that every point carries and every table keeps in its key (comparisons with NULL are not defined by the statement)"}, commonAssumptions...),
+		Probes: []string{"op.where", "op.having", "op.insub", "op.fromsub", "probe.point-matches-pred"},
+	},
 }
